@@ -889,10 +889,25 @@ func c18GenGroup(gi int, r *rand.Rand) *c18Group {
 	if r.IntN(6) == 0 {
 		nEv = c18Clamp(wsz-r.IntN(2), 2, 6)
 	}
+	// one group in five uses look-alike ids: subscription ids longer than 64 bytes that differ
+	// only after byte 64, event ids that are 64 hex digits and differ only in letter case
+	lookAlike := r.IntN(5) == 0
 	for i := 0; i < nSub; i++ {
+		if lookAlike {
+			g.SubIDs = append(g.SubIDs, strings.Repeat("p", 64)+fmt.Sprintf("-%c", 'A'+i))
+			continue
+		}
 		g.SubIDs = append(g.SubIDs, fmt.Sprintf("sub%c", 'A'+i))
 	}
 	for i := 0; i < nEv; i++ {
+		if lookAlike {
+			h := vk.HexOf(fmt.Sprintf("c18 look-alike %d", i/2))
+			if i%2 == 1 {
+				h = strings.ToUpper(h)
+			}
+			g.EventIDs = append(g.EventIDs, h)
+			continue
+		}
 		g.EventIDs = append(g.EventIDs, fmt.Sprintf("ev%c", 'a'+i))
 	}
 	n1 := 2 + r.IntN(5)
